@@ -19,7 +19,7 @@ def field_values(width, orig, total_len):
     return sorted(vals)
 
 
-def mutations(seed, rng, budget, big_endian=False, dense_limit=1536, text=False, field_map=None, always=(), focus=()):
+def mutations(seed, rng, budget, big_endian=False, dense_limit=1536, text=False, field_map=None, always=(), focus=(), cap=None):
     """-> list of (offset, width_code, value, cls); deduplicated"""
     n = len(seed)
     out = []
@@ -103,6 +103,20 @@ def mutations(seed, rng, budget, big_endian=False, dense_limit=1536, text=False,
     for (o, w, v, c) in always:
         if (o, w, v) not in have:
             out.append((o, w, v, c))
+    if cap is not None and len(out) > cap:
+        # interpreter runs (Miri): a small stratified sample, every operator class represented
+        by = {}
+        for m in out:
+            by.setdefault(m[3], []).append(m)
+        pick = []
+        while len(pick) < cap and by:
+            for c in list(by):
+                pick.append(by[c].pop(rng.randrange(len(by[c]))))
+                if not by[c]:
+                    del by[c]
+                if len(pick) >= cap:
+                    break
+        out = pick
     return out
 
 
